@@ -673,10 +673,15 @@ def miri(tier, seed):
     nruns = 2 if tier == "quick" else 6
     def one(i):
         trace = os.path.join(_trace_dir(), "miri-%s-%d.ndjson" % (key[:8], i))
-        args = ["drive", "--seed", str(seed * 131 + i), "--runs", "1", "--steps", "22" if tier == "quick" else "40", "--max-probe", "2", "--out", trace]
+        args = ["drive", "--seed", str(seed * 131 + i), "--runs", "1", "--steps", "14" if tier == "quick" else "20", "--max-probe", "1", "--out", trace]
         if i % 2 == 1:
             args.append("--no-faults")
-        rc, out, dt = sh(["cargo", "+nightly", "miri", "run", "-q", "--"] + args, cwd=d, env=env, timeout=4 * 3600, check=False)
+        try:
+            # the interpreter needs about 10 s per event and more for every probe; a run that does not
+            # finish in its budget is simply not counted (Miri is a supplement, never the deciding engine)
+            rc, out, dt = sh(["timeout", "-k", "10", "3000", "cargo", "+nightly", "miri", "run", "-q", "--"] + args, cwd=d, env=env, timeout=3100, check=False)
+        except ToolError:
+            rc, out, dt = 124, "", 3100.0
         n = 0
         if os.path.exists(trace):
             n, _ = _count_ops(trace)
@@ -693,7 +698,7 @@ def miri(tier, seed):
             at = o.find("Undefined Behavior")
             violations.append({"tags": ["C03", "C04", "C10"], "what": "Miri reports undefined behaviour in a history of safe API calls",
                                "at": 0, "event": {"miri": o[max(0, at - 300):at + 2500]}, "origin": {"engine": "miri", "seed": seed, "run": p["i"]}})
-        elif p["rc"] != 0 and ("could not compile" in o or "error: no such command" in o or p["events"] == 0):
+        elif p["rc"] not in (0, 124, 137) and ("could not compile" in o or "error: no such command" in o or p["events"] == 0):
             raise ToolError("miri run failed: " + o[-2000:])
     res = {"engine": "miri", "tier": tier, "seed": seed, "traces": nruns, "events": sum(p["events"] for p in parts),
            "runs": parts, "tlc_states": 0, "tlc_transitions": 0,
